@@ -425,7 +425,12 @@ class C14:
             "eps 1e-5..1e-14, rotations by 1e-9..1e-30, DFT, real orthogonal, two-level, unit rows) of size 1-6 "
             "(thorough: 1-8) for reck_decomposition and Reck.map (default and random error models from "
             "Constant/TopHat/Gaussian, seeds, heralds, prior call histories, lossy/non-unitary and malformed inputs); "
-            "distribution and ErrorModel draw sequences against the replicated numpy streams; a case is non-trivial "
+            "distribution and ErrorModel draw sequences against the replicated numpy streams; "
+            "Reck configured through the constructor, the error_model setter, in-place assignment on its default error "
+            "model, or re-pointed after use with another noisy model; second mapping after a successful map of another circuit and "
+            "two refused calls (bad seed, lossy circuit) on the same object; boundary seeds 0/1/0.0; error-model values exactly on "
+            "0/1/2 pi and zero-width windows; circuits without components, with zero-loss elements and live Parameters; real and "
+            "integer arrays for reck_decomposition; arguments (matrix, circuit) must be left unchanged; a case is non-trivial "
             "when n>=2 (decomp/map) or a random distribution is drawn from; distinct = distinct canonical JSON")
     TRUSTED = ["Python float evaluation of cos/sin/arccos/sqrt feeds the model's oracle tables (keys are the exact rationals the model computes)",
                "np.arctan/np.angle answers are taken from the implementation and checked by the model's exact product (result checking)",
@@ -481,10 +486,14 @@ class C14:
                 ins, outs = rng.sample(range(n), k_h), rng.sample(range(n), k_h)
                 her = [[rng.randint(0, 2), a, b] for a, b in zip(ins, outs)]
             cases.append(dict(kind="map", cat=cat, n=n, U=frommat(U), her=her, em=copy.deepcopy(DEFAULT_EM),
-                              seed=rng.choice([None, None, rng.randrange(10**6)]), hist=[0, 0, 0], circ="unitary"))
-        for name in (["cnot_h", "cz_h", "lossy"] if not thorough else ["cnot_h", "cz_h", "lossy", "cnot", "cz", "built", "built", "built", "lossy"]):
+                              seed=rng.choice([None, None, rng.randrange(10**6), 0, 1]), hist=[0, 0, 0], circ="unitary",
+                              api=k % 4))
+        # library / hand-built circuits: heralded gates, circuits of components (with a live Parameter, with loss elements
+        # whose loss is exactly 0 - still a lossless circuit), a circuit without any component, a lossy one (refused)
+        for name in (["cnot_h", "cz_h", "lossy", "empty", "zeroloss", "built"] if not thorough else
+                     ["cnot_h", "cz_h", "lossy", "cnot", "cz", "built", "built", "built", "lossy", "empty", "zeroloss", "zeroloss"]):
             cases.append(dict(kind="map", cat="lib", n=0, U=None, her=[], em=copy.deepcopy(DEFAULT_EM), seed=None,
-                              hist=[0, 0, 0], circ=name, cseed=rng.randrange(10**6)))
+                              hist=[0, 0, 0], circ=name, cseed=rng.randrange(10**6), api=rng.randrange(4)))
         # --- maps, random error models
         nm = 160 if thorough else 20
         for k in range(nm):
@@ -495,18 +504,28 @@ class C14:
             seed = rng.randrange(2**31) if k % 7 else None
             if k % 23 == 5:
                 seed = rng.choice([{"bad": "str"}, {"bad": "bool"}, 2.5, 3.0])
+            if k % 10 == 3:
+                seed = [0, 1, 0.0][(k // 10) % 3]                 # boundary seeds: 0 is a seed, not "no seed"
+            if k % 10 == 6:                                       # values exactly on the limits of what a component accepts
+                em = {"bs": rng.choice([{"t": "const", "v": 0}, {"t": "const", "v": 1}, {"t": "const", "v": 1.0},
+                                        {"t": "tophat", "lo": 0, "hi": 1}, {"t": "tophat", "lo": 1.0, "hi": 1.0}]),
+                      "loss": rng.choice([{"t": "const", "v": 0.0}, {"t": "const", "v": 1}, {"t": "tophat", "lo": 0, "hi": 0},
+                                          {"t": "gauss", "c": 0, "d": 0, "lo": 0, "hi": 0}]),
+                      "phase": rng.choice([{"t": "const", "v": 0.0}, {"t": "const", "v": -6.283185307179586},
+                                           {"t": "tophat", "lo": 6.283185307179586, "hi": 6.283185307179586}])}
             cases.append(dict(kind="map", cat="noisy", n=n, U=frommat(U), her=her, em=em, seed=seed,
-                              hist=[rng.randint(0, 5) for _ in range(3)], circ="unitary"))
+                              hist=[rng.randint(0, 5) for _ in range(3)], circ="unitary", api=k % 4))
         # --- distributions
         nd = 600 if thorough else 60
         for k in range(nd):
             d = self._gen_dist(rng, rng.choice(["bs", "loss", "phase", "wide"]), valid=(k % 6 != 5), malformed=(k % 6 == 5))
-            cases.append(dict(kind="dist", d=d, seed=rng.randrange(2**31), count=rng.randint(1, 12)))
+            cases.append(dict(kind="dist", d=d, seed=(rng.randrange(2**31) if k % 12 != 4 else [0, 1][(k // 12) % 2]),
+                              count=rng.randint(1, 12)))
         # --- error models: seed derivation, histories
         ne = 400 if thorough else 40
         for k in range(ne):
             em = self._gen_em(rng, valid=True, force_random=(k % 2 == 0))
-            seed = rng.randrange(2**31) if k % 9 else rng.choice([0, 1, 2**31 - 2, 2**40 + 3])
+            seed = rng.randrange(2**31) if k % 9 else [0, 1, 2**31 - 2, 2**40 + 3, 0][(k // 9) % 5]
             if k % 17 == 3:
                 seed = rng.choice([{"bad": "str"}, {"bad": "bool"}, 1.5, 4.0])
             cases.append(dict(kind="em", em=em, seed=seed, hist=[rng.randint(0, 6) for _ in range(3)],
@@ -578,11 +597,18 @@ class C14:
             circ = lw.qubit.CNOT()
         elif name == "cz":
             circ = lw.qubit.CZ()
-        elif name in ("built", "lossy"):
+        elif name == "empty":
+            circ = lw.Circuit(1 + c["cseed"] % 4)
+        elif name in ("built", "lossy", "zeroloss"):
             import random as _r
             r = _r.Random(c["cseed"])
             n = r.randint(2, 5)
             circ = lw.Circuit(n)
+            if name == "zeroloss":
+                circ.loss(r.randrange(n), 0)
+                circ.bs(r.randrange(n - 1), loss=0)
+                circ.loss(r.randrange(n), lw.Parameter(0))
+                circ.ps(r.randrange(n), lw.Parameter(r.uniform(-3, 3)))
             for _ in range(r.randint(1, 8)):
                 op = r.randrange(3)
                 if op == 0:
@@ -635,9 +661,17 @@ class C14:
             U = tomat(c["U"])
 
             def run():
-                pm, ep = reck_decomposition(U.copy())
+                arg = U.copy()
+                if np.all(arg.imag == 0) and c.get("cat") in ("identity", "perm", "real", "givens", "block"):
+                    # matrices without imaginary part are also given as real / integer arrays
+                    arg = arg.real.copy()
+                    if np.all(arg == np.round(arg)):
+                        arg = arg.astype(int)
+                arg0 = arg.copy()
+                pm, ep = reck_decomposition(arg)
                 keys, angs = parse_phase_map(pm)
-                return {"keys": keys, "angs": angs, "end": [float(x) for x in ep]}
+                return {"keys": keys, "angs": angs, "end": [float(x) for x in ep],
+                        "arg_kept": bool(np.array_equal(arg, arg0) and arg.dtype == arg0.dtype)}
             return guarded(run)
         if k == "dist":
             def run():
@@ -684,14 +718,49 @@ class C14:
             pre = guarded(lambda: parse_phase_map(reck_decomposition(np.flip(Uc, axis=(0, 1)))[0]))
             pre_end = guarded(lambda: [float(x) for x in reck_decomposition(np.flip(Uc, axis=(0, 1)))[1]])
 
+            api = c.get("api", 0)
+
             def one(hist, extra):
-                e = build_em(c["em"])
-                r = Reck(e)
+                # the four ways of giving a Reck its error model: constructor argument; the error_model setter of a
+                # default-constructed Reck; distributions assigned in place on the Reck's own default error model;
+                # a Reck that was built and USED with another (noisy) error model and is then re-pointed
+                if api == 1:
+                    e = build_em(c["em"])
+                    r = Reck()
+                    r.error_model = e
+                elif api == 2:
+                    r = Reck()
+                    e = r.error_model
+                    e.bs_reflectivity = mk_dist(c["em"]["bs"])
+                    e.loss = mk_dist(c["em"]["loss"])
+                    e.phase_offset = mk_dist(c["em"]["phase"])
+                elif api == 3:
+                    e0 = build_em({"bs": {"t": "tophat", "lo": 0.4, "hi": 0.6}, "loss": {"t": "const", "v": 0.1},
+                                   "phase": {"t": "gauss", "c": 0.1, "d": 0.05, "lo": None, "hi": None}})
+                    r = Reck(e0)
+                    r.map(lw.Unitary(lw.random_unitary(3, seed=4)), seed=5)
+                    e = build_em(c["em"])
+                    r.error_model = e
+                else:
+                    e = build_em(c["em"])
+                    r = Reck(e)
                 self._history(e, hist)
                 if extra:
-                    r.map(lw.Unitary(lw.random_unitary(2, seed=1)), seed=99)
+                    # the same Reck object used before: a successful mapping of another circuit, then two calls that
+                    # must fail (a lossy circuit, a seed that is not a number) - none of this may leave anything behind
+                    try:
+                        r.map(lw.Unitary(lw.random_unitary(2, seed=1)), seed=99)
+                    except ValueError:       # an error model whose bounds reach outside [0, 1] may refuse this mapping
+                        pass
+                    lossy = lw.Circuit(2)
+                    lossy.bs(0, loss=0.4)
+                    for bad in (lambda: r.map(circ, seed="seven"), lambda: r.map(lossy, seed=3)):
+                        try:
+                            bad()
+                        except Exception:  # noqa: BLE001
+                            pass
                 log = record_draws(e)
-                m = r.map(circ, py_seed(c["seed"]))
+                m = r.map(circ, seed=py_seed(c["seed"])) if extra else r.map(circ, py_seed(c["seed"]))
                 o = observe_circuit(m)
                 o["draws"] = log
                 return o
@@ -715,6 +784,10 @@ class C14:
                 uf = np.array(m.U_full)
                 return {"dim": int(uf.shape[0]), "dev": float(np.abs(np.array(m.U) - Uc).max()) if uf.shape[0] == Uc.shape[0] else None}
             out["dflt"] = guarded(default_map)
+            # the circuit that was mapped (several times by now) is still the circuit it was
+            her1 = circ.heralds
+            out["circ_kept"] = bool(np.array_equal(np.array(circ.U), Uc) and list(her1["input"].items()) == list(her0["input"].items())
+                                    and list(her1["output"].items()) == list(her0["output"].items()))
             return out
         raise ValueError(k)
 
@@ -942,6 +1015,8 @@ class C14:
             if "err" in obs:
                 return f"reck_decomposition raised {obs['cls']} on a unitary matrix"
             o = obs["ok"]
+            if not o.get("arg_kept", True):
+                return "reck_decomposition modified the matrix it was given"
             exp_keys = [[j + 2 * i, j] for i in range(n - 1) for j in range(n - 1 - i)]
             if o["keys"] != exp_keys:
                 return f"phase_map keys {o['keys']} != {exp_keys}"
@@ -949,7 +1024,7 @@ class C14:
             for (a, j), (th, ph) in zip(o["keys"], o["angs"]):
                 P = my_bs(n, j, th, ph) @ P
             R = np.diag(np.exp(1j * np.array(o["end"]))) @ P if n else P
-            if n and abs(R - U).max() > TOL:
+            if n and not (abs(R - U).max() <= TOL):
                 return f"D.T_K...T_1 from the returned phases differs from U by {abs(R - U).max():.3g}"
             return None
         if k == "dist":
@@ -1018,11 +1093,13 @@ class C14:
         unitary = np.allclose(Uc.conj().T @ Uc, np.identity(n), rtol=0, atol=1e-10)
         if not unitary:
             return None if first.get("err") in ("ValueError", "TypeError") else f"lossy circuit not rejected: {_short(first)}"
+        if not obs.get("circ_kept", True):
+            return "the circuit handed to Reck.map was modified (its unitary or heralds changed)"
         dflt = obs.get("dflt")
         if dflt is not None:
             if "ok" not in dflt:
                 return f"Reck().map with the default error model raised on a lossless circuit: {_short(dflt)}"
-            if dflt["ok"]["dim"] != n or dflt["ok"]["dev"] is None or dflt["ok"]["dev"] > 1e-8:
+            if dflt["ok"]["dim"] != n or dflt["ok"]["dev"] is None or not (dflt["ok"]["dev"] <= 1e-8):
                 return (f"a default-constructed Reck does not reproduce the unitary (dimension {dflt['ok']['dim']} vs {n}, "
                         f"max deviation {dflt['ok']['dev']}): the default error model is not the trivial one")
         if badseed:
@@ -1071,6 +1148,8 @@ class C14:
         if [o["hin"], o["hout"]] != obs["her0"]:
             return f"heralds {o['hin']}/{o['hout']} differ from the original {obs['her0']}"
         M = tomat(o["U"])
+        if not np.all(np.isfinite(M)):
+            return "mapped.U has entries that are not finite numbers"
         if default and abs(M - Uc).max() > TOL:
             return f"mapped.U differs from circuit.U by {abs(M - Uc).max():.3g}"
         if n and np.linalg.svd(M, compute_uv=False).max() > 1 + TOL:
